@@ -26,3 +26,10 @@ package config
 //@   arith int
 //@   properties C15
 //@   ensures nonnil: result != nil
+
+//@ func RedisConfig.GetClusterOptions
+//@   arith int
+//@   properties C10
+//@   requires nonnil: rc != nil
+//@   modifies nothing
+//@   ensures accessor: result == rc.ClusterOptions
